@@ -76,6 +76,19 @@ def run(rep):
             continue
         n_emitted += 1
         n_rt += 1
+        # the first emission against what was given through the API (numeric values must keep their value already there)
+        d0 = infoset.diff_text(docgen.to_xml(node), r['s1'])
+        if d0:
+            import re as _re
+            from decimal import Decimal, InvalidOperation
+            mm = _re.search(r"(attribute \S+|text) '([^']*)' became '([^']*)'", d0)
+            if mm:
+                try:
+                    Decimal(mm.group(2).strip()); Decimal(mm.group(3).strip())
+                    rep.finding_or_violation('C08:emit-number', '<%s>: a number given through the API is emitted with another value: %s' % (node['tag'], d0),
+                                             {'document': node, 'difference': d0, 'emitted': r['s1'][:1500]})
+                except InvalidOperation:
+                    pass                      # not a number: names, order and text are the business of C02 / C04 / C16
         d = infoset.diff_text(r['s1'], r['s2'])
         if d:
             key = 'C08:infoset:' + ('outer-space' if 'text' in d and any(ch in d for ch in ('\\n', '  ')) else d.split(':')[1].strip().split(' ')[0])
